@@ -154,6 +154,8 @@ def build_arg(node, env):
     k = node[0]
     if k == "src":
         return env.src(node[1])
+    if k == "cte":
+        return build_source(node, env)
     if k == "py" or k == "raw":
         return node[1]
     if k == "pyv":
